@@ -1,3 +1,5 @@
 import SpVerif.Model.Hilbert
 import SpVerif.Model.Proto
 import SpVerif.Props.C07
+import SpVerif.Model.GeomProto
+import SpVerif.Props.C01
